@@ -147,7 +147,7 @@ def partitions(tier, seed):
     region_types = [k for k in sp.struct_keys() if T[k]["kind"] == "tpm2b" or any(
         isinstance(f[1], str) and T[f[1]]["kind"] == "tpm2b" for f in T[k].get("fields", []))]
     if quick:
-        region_types = sp.rotate(region_types, seed, 30)
+        region_types = sp.rotate(region_types, seed, 24)
     for k in region_types:
         m = sp.min_size(k)
         lo, hi = (m, min(m + 3, 8)) if quick else (0, min(m + 4, 12))
@@ -164,7 +164,7 @@ def partitions(tier, seed):
     ccs = sp.cc_list()
     if quick:
         core = [c for c in ccs if sp.cc_name(c) in CORE]
-        ccs = sorted(set(sp.rotate(ccs, seed + 12, 7) + core))
+        ccs = sorted(set(sp.rotate(ccs, seed + 12, 5) + core))
     for cc in ccs:
         for label, data in G.commands(cc, minimal=quick):
             tr = sp.trace_of(sp.cmd_key(), data)
